@@ -161,9 +161,6 @@ package auth
 //@   pure
 //@ func (Resources) ContainsBucketPattern
 //@   pure
-//@ ghost func isObjAct(a Action) bool
-//@ func (Action) IsObjectAction
-//@   frame none
 //@ func (Resources) Validate
 //@   pure
 //@   ensures {C14} [inside-the-bucket] err == nil ==> (forall k string :: in(k, r) ==> k == bucket || strings.HasPrefix(k, bucket + "/"))
@@ -171,7 +168,9 @@ package auth
 //@ func (BucketPolicyItem) Validate
 //@   pure
 //@   ensures {C14} [parts-valid] err == nil ==> bpi.Effect.Validate() == nil && bpi.Principals.Validate(iam) == nil && bpi.Resources.Validate(bucket) == nil
-//@   at-return {C14} [every-action-checked] when err == nil :: ensures forall k Action :: in(k, bpi.Actions) ==> visited(bpi.Actions, k)
+//@   let kindOK = k == AllActions || ((isObjAct(k) ==> bpi.Resources.ContainsObjectPattern()) && (!isObjAct(k) ==> bpi.Resources.ContainsBucketPattern()))
+//@   at-return {C14} [every-action-checked] when err == nil :: ensures forall k Action :: in(k, bpi.Actions) ==> visited(bpi.Actions, k) && kindOK
+//@   loop 1 invariant {C14} [visited-actions-fit-resources] forall k Action :: visited(bpi.Actions, k) ==> kindOK
 
 //@ func getMalformedPolicyError
 //@   frame none
